@@ -59,7 +59,6 @@ var traceInstsFlag = flag.Bool("trace-insts", false, "record per-wavefront execu
 var instsOutFlag = flag.String("insts-out", "", "file for the per-wavefront table")
 var dumpWfFlag = flag.String("dump-wf", "", "launch:x,y,z:firstwi - dump the full sequence of one wavefront")
 var sysTraceFlag = flag.String("sys-trace", "", "write the system-level event trace (ndjson) to this file")
-var rdmaTraceFlag = flag.String("rdma-trace", "", "write the RDMA port event trace (ndjson) to this file")
 var knobsFlag = flag.String("knobs", "", "timing platform knobs cus=,sas=,l2=,banks=,bankil=,freq=,l2lat=")
 var noDumpFlag = flag.Bool("no-dump", false, "do not read the buffers back with MemCopyD2H (storage snapshot only)")
 var schedFlag = flag.String("sched", "lazy", "lazy: the application thread enqueues/signals only while the engine goroutine is idle (deterministic host schedule); free: no steering")
@@ -340,11 +339,6 @@ func main() {
 		}
 		st.emit(map[string]interface{}{"e": "Reset", "ngpu": ncp, "multictx": multiCtx, "timing": tm})
 	}
-	var rt *rdmaTracer
-	if *rdmaTraceFlag != "" {
-		rt = newRDMATracer(*rdmaTraceFlag)
-		rt.attach(s.Components())
-	}
 
 	// hang detection: the application waits for a queue (yield point "wait") while the engine goroutine is idle
 	var waiting int32
@@ -488,6 +482,14 @@ wait:
 	ct.mu.Unlock()
 
 	if it != nil {
+		roles := it.roles()
+		for _, b := range bufs {
+			role := "data"
+			if r, ok := roles[b["vaddr"].(uint64)]; ok {
+				role = r
+			}
+			b["role"] = role
+		}
 		per := it.finish()
 		out["insts"] = map[string]interface{}{"cus": nCU, "issued": it.issued, "retired": it.retired, "launches": it.launches}
 		if *instsOutFlag != "" {
@@ -508,10 +510,6 @@ wait:
 		}
 		st.close()
 		out["sys_trace"] = map[string]interface{}{"events": st.n, "kinds": st.stats}
-	}
-	if rt != nil {
-		rt.close()
-		out["rdma_trace"] = map[string]interface{}{"events": rt.n}
 	}
 	emit()
 	if hang {
